@@ -17,6 +17,8 @@ def is_trivial(line, mo):
 
 
 def generate(rng, tier):
+    from harness.props import c02
+    yield from c02.gen_gzip(rng, tier)
     nstreams = 10 if tier == "quick" else 300
     for kind in ("bytes", "file", "socket"):
         for skip in (0, 2):
